@@ -695,6 +695,12 @@ class GenericProcessor(processor.ImportProcessor):
 
         if cmd.from_ is not None:
             self.cache_mgr.reftracker.track_heads_for_ref(cmd.ref, cmd.from_)
+        else:
+            # "reset <ref>" without a from clause (re)starts the branch from
+            # nothing: the next commit on it that has no from clause of its
+            # own is a root, not a child of the previous tip.  (The previous
+            # tip stays a head.)
+            self.cache_mgr.reftracker.last_ids.pop(cmd.ref, None)
 
     def tag_handler(self, cmd):
         """Process a TagCommand to create a tag.
